@@ -79,7 +79,7 @@ def gen_cases(tier, seed):
             ct = -rng.uniform(0.02, 0.95)
         ph = rng.uniform(0, 2 * np.pi)
         cases.append({"cls": cls, "model": model, "endpoint": [float(xy[0]), float(xy[1]), float(z)], "ct": float(ct), "phi": float(ph),
-                      "scale": float(10 ** rng.uniform(-2, 2)), "step": float(rng.choice([2000, 500, 125, 31])),
+                      "scale": float(10 ** rng.uniform(-2, 2)) if rng.random() < 0.7 else float(10 ** rng.uniform(-14, 12)), "step": float(rng.choice([2000, 500, 125, 31])),
                       "dip_delta_deg": float(rng.uniform(0.5, 20))})
     cases.append({"cls": "repo-suite", "files": ["tests/test_earth_model.py", "tests/test_generation.py"]})      # the repository's own tests under the contract
     return cases
